@@ -231,6 +231,7 @@ fn gen_delta_ns(c: &mut Ctx, ns_max: i128, ns_min: i128) -> i128 {
 }
 
 pub fn run(c: &mut Ctx) {
+    crate::aliases::c07(c);
     let mut fl = Fails(BTreeMap::new());
     let mut tl = Tally(BTreeMap::new());
     let ns_max = td_ns(&TimeDelta::MAX);
